@@ -7,7 +7,7 @@ from common import enc_arr, enc_f, enc_vec, coq_q, dyadic, dec_res, run_impl, ru
 from framework import prove, finish
 import oracle_q as oq
 
-DEPS = ["Props/C14.vo", "Corr/C14.vo"]
+DEPS = ["Props/C14.vo", "Corr/C14.vo", "Corr/C14T.vo"]
 HEADER = "From Coq Require Import List QArith.\nFrom BZ Require Import Model.Workspace Corr.Common Corr.C14.\nImport ListNotations.\nOpen Scope Q_scope.\n"
 F = Fraction
 
@@ -257,6 +257,113 @@ def helper_presentation_sweep(ctx):
     ctx.corr["sweep:helper_integer_presentation"] = stats
 
 
+HEADER_T = "From Coq Require Import List QArith.\nFrom BZ Require Import Model.WorkspaceTri Corr.Common Corr.C14T.\nImport ListNotations.\nOpen Scope Q_scope.\n"
+
+
+def tri_inputs():
+    """(nodes1, degree1, nodes2, degree2): 0, 1x3, 1x6, 3x3 ... curved polygons x segments, and a contained pair"""
+    T1 = [[F(0), F(1), F(0)], [F(0), F(0), F(1)]]
+    return [
+        (T1, 1, [[F(5), F(6), F(5)], [F(5), F(5), F(6)]], 1),                                       # disjoint: no polygon
+        (T1, 1, [[F(1, 4), F(5, 4), F(1, 4)], [F(1, 4), F(1, 4), F(5, 4)]], 1),                     # one polygon, 3 segments
+        ([[F(0), F(4), F(2)], [F(0), F(0), F(3)]], 1, [[F(0), F(4), F(2)], [F(2), F(2), F(-1)]], 1),  # star: 3 polygons x 3 segments
+        ([[F(0), F(8), F(0)], [F(0), F(0), F(8)]], 1, [[F(1), F(2), F(1)], [F(1), F(1), F(2)]], 1),  # second inside first: contained
+        ([[F(0), F(1, 2), F(1), F(0), F(1, 2), F(0)], [F(0), F(-1, 2), F(0), F(1, 2), F(1, 2), F(1)]], 2,
+         [[F(-1, 2), F(1, 2), F(3, 2), F(0), F(1), F(1, 2)], [F(-1, 8), F(-1, 8), F(-1, 8), F(3, 8), F(3, 8), F(7, 8)]], 2),  # quadratic pair
+        ([[F(0), F(4), F(2)], [F(0), F(0), F(4)]], 1, [[F(0), F(4), F(2)], [F(3), F(3), F(-1)]], 1),  # hexagon-like overlap
+    ]
+
+
+def triangle_histories(ctx):
+    """histories of the triangle-intersection entry point (two workspaces, up to two resizes per call, resets to arbitrary sizes,
+    size queries, calls with 0 / 1 / 2 resizes allowed) executed in ONE process and compared, operation by operation, with the
+    state machine Model/WorkspaceTri.v inside Coq; every successful result also bitwise with a pristine process"""
+    rng = ctx.rng
+    inp = tri_inputs()
+    job = lambda i, r: {"op": "speedup.triangle_intersections", "args": [enc_arr(inp[i][0]), inp[i][1], enc_arr(inp[i][2]), inp[i][3], r]}
+    pristine = [run_impl("speedup", [job(i, 2)])[0] for i in range(len(inp))]
+    if any("exc" in r for r in pristine):
+        ctx.violations.append({"kind": "history-call-raised", "op": "speedup.triangle_intersections", "case": {},
+                               "implementation_returned": pristine, "verdict": "a triangle pair raised in a pristine process", "no_input": True})
+        return
+    table = []
+    for r in pristine:
+        polys = dec_res(r["ok"])
+        table.append([[(int(e), a, b) for (e, a, b) in p] for p in polys])
+    ctx.notes.append("triangle pairs: polygons x segments = %s" % [[len(p) for p in t] for t in table])
+    n_hist = 5 if ctx.quick() else 40
+    length = 40 if ctx.quick() else 300
+    texts, metas = [], []
+    stats = {"histories": n_hist, "length": length, "compared": 0, "disagreements": 0, "bitwise_vs_pristine": 0}
+    pl = lambda polys: "[" + "; ".join("[" + "; ".join("(%d%%nat, %s, %s)" % (e, coq_q(a), coq_q(b)) for (e, a, b) in p) + "]" for p in polys) + "]"
+    for h in range(n_hist):
+        ops, jobs = [], []
+        for _ in range(length):
+            u = rng.random()
+            if u < 0.6:
+                i = rng.randrange(len(inp)); r = rng.choice([0, 1, 2, 2, 2, 3])
+                ops.append(("I", i, r)); jobs.append(job(i, r))
+            elif u < 0.85:
+                e = rng.choice([-1, 1, 2, 3, 5]); g = rng.choice([-1, 1, 2, 4, 6, 9, 12])
+                ops.append(("R", e, g)); jobs.append({"op": "speedup.reset_triangle_workspaces", "args": [e, g]})
+            else:
+                ops.append(("Q",)); jobs.append({"op": "speedup.triangle_workspace_sizes", "args": []})
+        res = run_impl("speedup", jobs)
+        obs, ok = [], True
+        for k, (o, r) in enumerate(zip(ops, res)):
+            if o[0] == "I":
+                if "exc" in r:
+                    m1 = re.search(r"segment ends. Needed space for (\d+) integers but only had space for (\d+)", r.get("msg", ""))
+                    m2 = re.search(r"for segments. Needed space for (\d+) .CurvedPolygonSegment.-s but only had space for (\d+)", r.get("msg", ""))
+                    if r["exc"] == "ValueError" and m1:
+                        obs.append("(EndsTooSmall segT %s %s)" % m1.groups())
+                    elif r["exc"] == "ValueError" and m2:
+                        obs.append("(SegsTooSmall segT %s %s)" % m2.groups())
+                    else:
+                        ctx.violations.append({"kind": "history-call-raised", "op": "speedup.triangle_intersections", "case": {"history": [list(map(str, x)) for x in ops[:k + 1]]},
+                                               "implementation_returned": r, "verdict": "a call that succeeds in a pristine process raised %s inside a history" % r["exc"]})
+                        ok = False
+                        break
+                else:
+                    polys = [[(int(e), a, b) for (e, a, b) in p] for p in dec_res(r["ok"])]
+                    obs.append("(Result segT %s)" % pl(polys))
+                    stats["bitwise_vs_pristine"] += 1
+                    if json.dumps(r["ok"]) != json.dumps(pristine[o[1]]["ok"]):
+                        ctx.violations.append({"kind": "result-depends-on-history", "op": "speedup.triangle_intersections", "case": {"input": o[1], "history_length": k},
+                                               "implementation_returned": r, "pristine": pristine[o[1]], "verdict": "result differs bitwise from the same call in a pristine process"})
+            elif o[0] == "Q":
+                e, g = dec_res(r["ok"])
+                obs.append("(Sizes segT %d %d)" % (int(e), int(g)))
+            else:
+                obs.append("(Done segT)")
+        if not ok:
+            continue
+        op_t = []
+        for o in ops:
+            if o[0] == "I":
+                op_t.append("(Intersect nat %d%%nat %d%%nat)" % (o[1], o[2]))
+            elif o[0] == "R":
+                f = lambda v: "None" if v == -1 else "(Some %d%%nat)" % v
+                op_t.append("(Reset nat %s %s)" % (f(o[1]), f(o[2])))
+            else:
+                op_t.append("(QuerySizes nat)")
+        tb = "[" + "; ".join(pl(t) for t in table) + "]"
+        texts.append(HEADER_T + "\nEval vm_compute in (bad_indices chk_tri_history [(%s, [%s], [%s])]).\n" % (tb, "; ".join(op_t), "; ".join(obs)))
+        metas.append(ops)
+    outs = run_cases_sharded("C14_tri_history", texts)
+    for (rc, out, err, dt), ops in zip(outs, metas):
+        bad = parse_bad(out) if rc == 0 else None
+        stats["compared"] += 1
+        if bad is None:
+            ctx.violations.append({"kind": "correspondence-not-checkable", "correspondence": "triangle-workspace-history", "detail": (out + err)[-1500:], "no_input": True})
+        elif bad:
+            stats["disagreements"] += 1
+            ctx.violations.append({"kind": "model-implementation-disagreement", "correspondence": "triangle-workspace-history", "case": {"history": [list(map(str, x)) for x in ops]},
+                                   "verdict": "the observable outputs of the history (results, sizes, size errors) differ from the two-buffer state machine",
+                                   "op": "speedup.triangle_intersections", "config": "speedup"})
+    ctx.corr["triangle_workspace_histories"] = dict(stats, distinct_nontrivial=n_hist)
+
+
 def run(ctx):
     prove(ctx, DEPS)
     rng = ctx.rng
@@ -350,6 +457,7 @@ def run(ctx):
     ctx.corr["workspace_histories"] = dict(stats, distinct_nontrivial=n_hist)
     ctx.samples.append({"correspondence": "workspace_histories", "case": {"first_ops": [list(map(str, o)) for o in metas[0][:8]] if metas else []}})
 
+    triangle_histories(ctx)
     numerical_state_sweep(ctx)
     mutation_sweep(ctx)
     helper_presentation_sweep(ctx)
@@ -395,5 +503,5 @@ def run(ctx):
                   "(thorough) operations - intersections with 0..9 results forcing workspace growth, calls without resize permission, "
                   "resets, frees, size queries - executed in one process and compared operation by operation with the state machine "
                   "(inside Coq). Presentation independence, non-mutation and the edge cache are support sweeps",
-                  unproved=["purity of the numerical code itself (assumption `isect`)", "triangle-intersection workspaces (same protocol, not modelled)",
+                  unproved=["purity of the numerical code itself (assumptions `isect`, `tisect`)",
                             "memory safety (-fcheck=all build not run)", "pure-Python configuration has no hidden buffers; swept only"])
